@@ -335,5 +335,374 @@ pub fn mul_redc<const N: usize>(a: [u64; N], b: [u64; N], modulus: [u64; N], inv
 }
 //@ end
 
+// ---- Montgomery squaring ----
+pub assume_specification [u128::overflowing_add] (a: u128, b: u128) -> (r: (u128, bool))
+    ensures r.0 as int == (a as int + b as int) % (B * B),
+            r.1 == (a as int + b as int >= B * B);
+
+//@ extract src/algorithms/mul_redc.rs fn carrying_double_mul_add bools=carry_1,carry_2
+pub fn carrying_double_mul_add(
+    lhs: u64,
+    rhs: u64,
+    add: u64,
+    carry_lo: u64,
+    carry_hi: bool,
+) -> /*+*/(r:/*-*/ (u64, u64, bool)/*+*/)
+    ensures r.0 as int + r.1 as int * B + (if r.2 { B * B } else { 0 })
+        == 2 * (lhs as int * rhs as int) + add as int + carry_lo as int + (if carry_hi { B } else { 0 })/*-*/
+{
+    /*+*/let ghost bb: int = B * B;
+    let ghost p = lhs as int * rhs as int;
+    proof {
+        assert(u128::MAX as int == B * B - 1) by(compute_only);
+        assert(p <= 0xffff_ffff_ffff_ffff * 0xffff_ffff_ffff_ffff) by(nonlinear_arith)
+            requires p == lhs as int * rhs as int, 0 <= lhs as int <= 0xffff_ffff_ffff_ffff, 0 <= rhs as int <= 0xffff_ffff_ffff_ffff;
+        assert(p >= 0) by(nonlinear_arith) requires p == lhs as int * rhs as int, lhs as int >= 0, rhs as int >= 0;
+        lemma_small_mod(p as nat, bb as nat);
+    }/*-*/
+    let wide = (lhs as u128).wrapping_mul(rhs as u128);
+    /*+*/let ghost w0 = wide;/*-*/
+    let (wide, carry_1) = wide.overflowing_add(wide);
+    /*+*/let ghost w1 = wide;
+    let ghost ch: u128 = carry_hi as u128;
+    proof {
+        assert(w0 as int == p);
+        assert(ch == (if carry_hi { 1u128 } else { 0u128 }));
+        assert(ch << 64 == (if carry_hi { 0x1_0000_0000_0000_0000u128 } else { 0u128 })) by(bit_vector)
+            requires ch == (if carry_hi { 1u128 } else { 0u128 });
+        lemma_small_mod((add as int + carry_lo as int) as nat, bb as nat);
+        lemma_small_mod((add as int + carry_lo as int + (if carry_hi { B } else { 0 })) as nat, bb as nat);
+    }/*-*/
+    let carries = (add as u128)
+        .wrapping_add(carry_lo as u128)
+        .wrapping_add((carry_hi as u128) << 64);
+    let (wide, carry_2) = wide.overflowing_add(carries);
+    /*+*/proof {
+        // stated over the mathematical values only (not over the names of the two carry flags)
+        let cv = add as int + carry_lo as int + (if carry_hi { B } else { 0 });
+        assert(carries as int == cv);
+        let o1 = 2 * p >= bb;                 // the doubling overflows 2^128
+        if o1 { lemma_fundamental_div_mod_converse(2 * p, bb, 1, 2 * p - bb); } else { lemma_small_mod((2 * p) as nat, bb as nat); }
+        assert(w1 as int == (if o1 { 2 * p - bb } else { 2 * p }));
+        let t = w1 as int + cv;
+        let o2 = t >= bb;                     // adding the carries overflows 2^128
+        if o2 { lemma_fundamental_div_mod_converse(t, bb, 1, t - bb); } else { lemma_small_mod(t as nat, bb as nat); }
+        assert(wide as int == (if o2 { t - bb } else { t }));
+        // the total is below 2*2^128, so at most one of the two additions overflows
+        assert(!(o1 && o2));
+        assert(wide as int + (if o1 || o2 { bb } else { 0 }) == 2 * p + cv);
+        lemma_u128_shr_is_div(wide, 64); lemma2_to64();
+        assert(wide as u64 == (wide % 0x1_0000_0000_0000_0000u128) as u64) by(bit_vector);
+        lemma_fundamental_div_mod(wide as int, B);
+        assert(B * ((wide as int) / B) == ((wide as int) / B) * B) by(nonlinear_arith);
+    }/*-*/
+    (wide as u64, (wide >> 64) as u64, carry_1 || carry_2)
+}
+//@ end
+
+// m = (v * inv) mod B with inv * m0 == -1 (mod B) clears the low limb:  m0*m + v == 0 (mod B)
+pub proof fn lemma_redc_factor(v1: int, inv: int, m0: int, m: int)
+    requires m == (v1 * inv) % B, (inv * m0) % B == B - 1
+    ensures (m0 * m + v1) % B == 0
+{
+    lemma_mul_mod_noop_right(m0, v1 * inv, B);
+    assert(m0 * (v1 * inv) == v1 * (inv * m0)) by(nonlinear_arith);
+    lemma_mul_mod_noop_right(v1, inv * m0, B);
+    assert(v1 * (B - 1) + v1 == v1 * B) by(nonlinear_arith);
+    lemma_mod_multiples_basic(v1, B);
+    lemma_add_mod_noop(m0 * m, v1, B);
+    lemma_add_mod_noop(v1 * (B - 1), v1, B);
+}
+
+// the part of a^2 contributed by rows 0..i of the squaring schedule: P*(2A - P) with P = lvi(a, i)
+pub open spec fn sq_part(p: int, av: int) -> int { p * (2 * av - p) }
+
+pub proof fn lemma_sq_part_step(p: int, t: int, av: int)
+    ensures sq_part(p + t, av) == sq_part(p, av) + t * (t + 2 * (av - (p + t)))
+{
+    assert((p + t) * (2 * av - (p + t)) == p * (2 * av - p) + t * (t + 2 * (av - (p + t)))) by(nonlinear_arith);
+}
+
+//@ extract src/algorithms/mul_redc.rs fn square_redc
+pub fn square_redc<const N: usize>(a: [u64; N], modulus: [u64; N], inv: u64) -> /*+*/(res:/*-*/ [u64; N]/*+*/)
+    requires
+        N >= 1,
+        (inv as int * modulus@[0] as int) % B == B - 1,
+        lvi(a@, N as int) < lvi(modulus@, N as int),
+    ensures
+        redc_post(res@, lvi(a@, N as int) * lvi(a@, N as int), lvi(modulus@, N as int), N as int)/*-*/
+{
+    /*+*/proof {
+        lemma_lvi_is_lvr(a@, N as int); lemma_lvi_is_lvr(modulus@, N as int);
+        assert(ord_of(lvr(a@, 0, N as int), lvr(modulus@, 0, N as int)) == Ordering::Less);
+        assert(a@.len() == N && modulus@.len() == N);
+    }/*-*/
+    vassert ( (inv.wrapping_mul(modulus[0]) ) == ( u64::MAX ) );
+    vassert ( (cmp(&a, &modulus) ) == ( Ordering::Less ) );
+    /*+*/let ghost av = lvi(a@, N as int);
+    let ghost mv = lvi(modulus@, N as int);
+    let ghost n = N as int;/*-*/
+    let mut result = [0; N];
+    let mut carry_outer = 0;
+    /*+*/let ghost mut mu: int = 0;     // bp(i) * Acc == sq_part(lvi(a, i), av) + mv * mu
+    proof {
+        lemma_lvi_zero(result@, n);
+        lemma_lvi_bound(modulus@, n); lemma_lvi_bound(a@, n);
+        assert(sq_part(0, av) + mv * 0 == 0) by(nonlinear_arith);
+        assert(bp(0) * 0 == 0) by(nonlinear_arith);
+        assert(0 * bp(n) == 0) by(nonlinear_arith);
+    }/*-*/
+    for i in 0..N
+        /*+*/invariant
+            n == N, N >= 1, av == lvi(a@, n), mv == lvi(modulus@, n), 0 <= av < mv, mv < bp(n),
+            (inv as int * modulus@[0] as int) % B == B - 1,
+            (modulus@[n - 1] as int) < 0x3fff_ffff_ffff_ffff ==> carry_outer == 0,
+            carry_outer <= 2,
+            0 <= mu < bp(i as int),
+            bp(i as int) * (lvi(result@, n) + carry_outer as int * bp(n)) == sq_part(lvi(a@, i as int), av) + mv * mu,/*-*/
+    {
+        /*+*/let ghost r0 = result@;
+        let ghost ii = i as int;
+        let ghost ai = a@[ii] as int;
+        let ghost co = carry_outer as int;
+        let ghost acc_old = lvi(r0, n) + co * bp(n);/*-*/
+        let (value, mut carry_lo) = carrying_mul_add(a[i], a[i], result[i], 0);
+        let mut carry_hi = false;
+        result[i] = value;
+        /*+*/proof {
+            lemma_lvi_ext(r0, result@, ii);
+            assert(bp(ii + 1) == B * bp(ii));
+            assert(lvi(result@, ii + 1) == lvi(result@, ii) + value as int * bp(ii));
+            assert(lvi(r0, ii + 1) == lvi(r0, ii) + r0[ii] as int * bp(ii));
+            assert(lvi(result@, ii + 1) + (carry_lo as int + 0) * (B * bp(ii)) == lvi(r0, ii + 1) + ai * (ai * bp(ii)) + 2 * ai * 0) by(nonlinear_arith)
+                requires lvi(result@, ii + 1) == lvi(r0, ii) + value as int * bp(ii), lvi(r0, ii + 1) == lvi(r0, ii) + r0[ii] as int * bp(ii),
+                         value as int + carry_lo as int * B == ai * ai + r0[ii] as int + 0;
+        }/*-*/
+        for j in (i + 1)..N
+            /*+*/invariant
+                n == N, N >= 1, ii == i, i < N, ai == a@[ii] as int, r0.len() == n,
+                forall|l: int| j <= l < n ==> result@[l] == r0[l],
+                lvi(result@, j as int) + (carry_lo as int + (if carry_hi { B } else { 0 })) * bp(j as int)
+                    == lvi(r0, j as int) + ai * (ai * bp(ii)) + 2 * ai * (lvi(a@, j as int) - lvi(a@, ii + 1)),/*-*/
+        {
+            /*+*/let ghost jj = j as int;
+            let ghost res_before = result@;
+            let ghost c_in = carry_lo as int + (if carry_hi { B } else { 0 });/*-*/
+            let (value, next_carry_lo, next_carry_hi) =
+                carrying_double_mul_add(a[i], a[j], result[j], carry_lo, carry_hi);
+            result[j] = value;
+            carry_lo = next_carry_lo;
+            carry_hi = next_carry_hi;
+            /*+*/proof {
+                let c_out = carry_lo as int + (if carry_hi { B } else { 0 });
+                let aj = a@[jj] as int;
+                lemma_lvi_ext(res_before, result@, jj);
+                assert(bp(jj + 1) == B * bp(jj));
+                assert(lvi(result@, jj + 1) == lvi(result@, jj) + value as int * bp(jj));
+                assert(lvi(r0, jj + 1) == lvi(r0, jj) + r0[jj] as int * bp(jj));
+                assert(lvi(a@, jj + 1) == lvi(a@, jj) + aj * bp(jj));
+                assert(value as int + c_out * B == 2 * (ai * aj) + r0[jj] as int + c_in) by(nonlinear_arith)
+                    requires value as int + carry_lo as int * B + (if carry_hi { B * B } else { 0 }) == 2 * (ai * aj) + r0[jj] as int + c_in,
+                             c_out == carry_lo as int + (if carry_hi { B } else { 0 });
+                let X = lvi(r0, jj) + ai * (ai * bp(ii)) + 2 * ai * (lvi(a@, jj) - lvi(a@, ii + 1));
+                assert(lvi(result@, jj + 1) + c_out * (B * bp(jj))
+                        == lvi(r0, jj + 1) + ai * (ai * bp(ii)) + 2 * ai * (lvi(a@, jj + 1) - lvi(a@, ii + 1))) by(nonlinear_arith)
+                    requires lvi(res_before, jj) + c_in * bp(jj) == X,
+                             X == lvi(r0, jj) + ai * (ai * bp(ii)) + 2 * ai * (lvi(a@, jj) - lvi(a@, ii + 1)),
+                             lvi(result@, jj + 1) == lvi(res_before, jj) + value as int * bp(jj),
+                             lvi(r0, jj + 1) == lvi(r0, jj) + r0[jj] as int * bp(jj),
+                             lvi(a@, jj + 1) == lvi(a@, jj) + aj * bp(jj),
+                             value as int + c_out * B == 2 * (ai * aj) + r0[jj] as int + c_in;
+            }/*-*/
+        }
+        /*+*/let ghost r1 = result@;
+        let ghost cc = carry_lo as int + (if carry_hi { B } else { 0 });
+        // Y == lvi(r0, n) + row_i / B^i
+        let ghost rowv = ai * (ai * bp(ii)) + 2 * ai * (av - lvi(a@, ii + 1));
+        proof { assert(lvi(r1, n) + cc * bp(n) == lvi(r0, n) + rowv); }/*-*/
+        let m = result[0].wrapping_mul(inv);
+        let (value, mut carry) = carrying_mul_add(m, modulus[0], result[0], 0);
+        /*+*/proof {
+            let m0 = modulus@[0] as int; let v1 = r1[0] as int;
+            assert(m as int == (v1 * inv as int) % B);
+            lemma_redc_factor(v1, inv as int, m0, m as int);
+            assert(m as int * m0 == m0 * m as int) by(nonlinear_arith);
+            lemma_mod_multiples_vanish(carry as int, value as int, B);
+            assert(B * carry as int == carry as int * B) by(nonlinear_arith);
+            lemma_small_mod(value as nat, B as nat);
+            assert(value == 0);
+            assert(bp(1) == B) by { assert(bp(0) == 1); assert(B * 1 == B); }
+            assert(lvi(r1, 1) == v1) by { assert(bp(0) == 1); assert(lvi(r1, 0) == 0); assert(v1 * 1 == v1) by(nonlinear_arith); }
+            assert(lvi(modulus@, 1) == m0) by { assert(bp(0) == 1); assert(lvi(modulus@, 0) == 0); assert(m0 * 1 == m0) by(nonlinear_arith); }
+            assert(lvi(result@, 0) == 0);
+            assert(B * 0 + carry as int * B == v1 + m as int * m0) by(nonlinear_arith)
+                requires 0 + carry as int * B == m as int * m0 + v1 + 0;
+        }/*-*/
+        vassert ( (value ) == ( 0 ) );
+        for j in 1..N
+            /*+*/invariant
+                n == N, N >= 1, r1.len() == n,
+                forall|l: int| j <= l < n ==> result@[l] == r1[l],
+                B * lvi(result@, j as int - 1) + carry as int * bp(j as int) == lvi(r1, j as int) + m as int * lvi(modulus@, j as int),/*-*/
+        {
+            /*+*/let ghost jj = j as int;
+            let ghost res_before = result@;
+            let ghost c_in = carry as int;/*-*/
+            let (value, next_carry) = carrying_mul_add(modulus[j], m, result[j], carry);
+            result[j - 1] = value;
+            carry = next_carry;
+            /*+*/proof {
+                let mj = modulus@[jj] as int;
+                lemma_lvi_ext(res_before, result@, jj - 1);
+                assert(bp(jj + 1) == B * bp(jj));
+                assert(bp(jj) == B * bp(jj - 1));
+                assert(lvi(result@, jj) == lvi(result@, jj - 1) + value as int * bp(jj - 1));
+                assert(lvi(r1, jj + 1) == lvi(r1, jj) + r1[jj] as int * bp(jj));
+                assert(lvi(modulus@, jj + 1) == lvi(modulus@, jj) + mj * bp(jj));
+                assert(B * lvi(result@, jj) + carry as int * (B * bp(jj)) == lvi(r1, jj + 1) + m as int * lvi(modulus@, jj + 1)) by(nonlinear_arith)
+                    requires B * lvi(res_before, jj - 1) + c_in * bp(jj) == lvi(r1, jj) + m as int * lvi(modulus@, jj),
+                             lvi(result@, jj) == lvi(res_before, jj - 1) + value as int * bp(jj - 1),
+                             bp(jj) == B * bp(jj - 1),
+                             lvi(r1, jj + 1) == lvi(r1, jj) + r1[jj] as int * bp(jj),
+                             lvi(modulus@, jj + 1) == lvi(modulus@, jj) + mj * bp(jj),
+                             value as int + carry as int * B == mj * m as int + r1[jj] as int + c_in;
+            }/*-*/
+        }
+        /*+*/let ghost r2 = result@;
+        let ghost wt = co + cc + carry as int;      // the true top word
+        let ghost acc_new = lvi(r2, n - 1) + wt * bp(n - 1);
+        let ghost mu_new = mu + m as int * bp(ii);
+        proof {
+            // B * acc_new == acc_old + rowv + m * mv
+            assert(bp(n) == B * bp(n - 1));
+            lemma_bp_pos(n - 1); lemma_bp_pos(ii); lemma_bp_pos(n);
+            assert(B * acc_new == acc_old + rowv + m as int * mv) by(nonlinear_arith)
+                requires acc_new == lvi(r2, n - 1) + wt * bp(n - 1), wt == co + cc + carry as int, bp(n) == B * bp(n - 1),
+                         B * lvi(r2, n - 1) + carry as int * bp(n) == lvi(r1, n) + m as int * mv,
+                         lvi(r1, n) + cc * bp(n) == lvi(r0, n) + rowv, acc_old == lvi(r0, n) + co * bp(n);
+            // relation at i+1
+            let p = lvi(a@, ii); let t = ai * bp(ii);
+            assert(lvi(a@, ii + 1) == p + t);
+            lemma_sq_part_step(p, t, av);
+            assert(bp(ii + 1) == B * bp(ii));
+            assert(bp(ii) * rowv == t * (t + 2 * (av - (p + t)))) by(nonlinear_arith)
+                requires rowv == ai * (ai * bp(ii)) + 2 * ai * (av - (p + t)), t == ai * bp(ii);
+            assert(bp(ii + 1) * acc_new == sq_part(p + t, av) + mv * mu_new) by(nonlinear_arith)
+                requires bp(ii + 1) == B * bp(ii), B * acc_new == acc_old + rowv + m as int * mv,
+                         bp(ii) * acc_old == sq_part(p, av) + mv * mu,
+                         bp(ii) * rowv == t * (t + 2 * (av - (p + t))),
+                         sq_part(p + t, av) == sq_part(p, av) + t * (t + 2 * (av - (p + t))),
+                         mu_new == mu + m as int * bp(ii);
+            // mu_new < bp(i+1)
+            assert(0 <= mu_new < bp(ii + 1)) by(nonlinear_arith)
+                requires mu_new == mu + m as int * bp(ii), 0 <= mu <= bp(ii) - 1, 0 <= m as int <= B - 1, bp(ii + 1) == B * bp(ii), bp(ii) >= 1;
+            // bound: acc_new < 2*av + mv  (hence < 3*mv), from the relation
+            let p1 = p + t;
+            lemma_lvi_bound(a@, ii + 1);
+            lemma_bp_pos(ii + 1);
+            assert(sq_part(p1, av) <= bp(ii + 1) * (2 * av)) by(nonlinear_arith)
+                requires sq_part(p1, av) == p1 * (2 * av - p1), 0 <= p1 < bp(ii + 1), av >= 0;
+            assert(mv * mu_new <= (bp(ii + 1) - 1) * mv) by(nonlinear_arith) requires 0 <= mu_new <= bp(ii + 1) - 1, mv >= 0;
+            assert(acc_new < 2 * av + mv) by(nonlinear_arith)
+                requires bp(ii + 1) * acc_new == sq_part(p1, av) + mv * mu_new, sq_part(p1, av) <= bp(ii + 1) * (2 * av),
+                         mv * mu_new <= (bp(ii + 1) - 1) * mv, bp(ii + 1) >= 1, mv >= 1;
+            assert(acc_new < 3 * mv);
+            // the true top word is small: wt * bp(n-1) <= acc_new < 3 * bp(n)
+            lemma_lvi_bound(r2, n - 1);
+            assert(wt < 3 * B) by(nonlinear_arith)
+                requires acc_new == lvi(r2, n - 1) + wt * bp(n - 1), lvi(r2, n - 1) >= 0, acc_new < 3 * mv, mv < bp(n), bp(n) == B * bp(n - 1), bp(n - 1) >= 1;
+            assert(wt >= 0);
+        }/*-*/
+        if modulus[N - 1] >= 0x3fff_ffff_ffff_ffff {
+            /*+*/let ghost ch: u128 = carry_hi as u128;
+            proof {
+                assert(ch == (if carry_hi { 1u128 } else { 0u128 }));
+                assert(ch << 64 == (if carry_hi { 0x1_0000_0000_0000_0000u128 } else { 0u128 })) by(bit_vector)
+                    requires ch == (if carry_hi { 1u128 } else { 0u128 });
+                let bb: int = B * B; assert(u128::MAX as int == B * B - 1) by(compute_only);
+                lemma_small_mod((co + carry_lo as int) as nat, bb as nat);
+                lemma_small_mod((co + cc) as nat, bb as nat);
+                lemma_small_mod((co + cc + carry as int) as nat, bb as nat);
+            }/*-*/
+            let wide = (carry_outer as u128)
+                .wrapping_add(carry_lo as u128)
+                .wrapping_add((carry_hi as u128) << 64)
+                .wrapping_add(carry as u128);
+            result[N - 1] = wide as u64;
+            carry_outer = (wide >> 64) as u64;
+            /*+*/proof {
+                assert(wide as int == wt);
+                lemma_u128_shr_is_div(wide, 64); lemma2_to64();
+                assert(wide as u64 == (wide % 0x1_0000_0000_0000_0000u128) as u64) by(bit_vector);
+                lemma_fundamental_div_mod(wide as int, B);
+                let lo = (wide as int) % B; let hi = (wide as int) / B;
+                assert(hi <= 2) by(nonlinear_arith) requires wt == B * hi + lo, lo >= 0, wt < 3 * B, B > 0;
+                assert(carry_outer as int == hi);
+                lemma_lvi_ext(r2, result@, n - 1);
+                assert(lvi(result@, n) == lvi(result@, n - 1) + lo * bp(n - 1));
+                assert(lvi(result@, n) + carry_outer as int * bp(n) == acc_new) by(nonlinear_arith)
+                    requires lvi(result@, n) == lvi(r2, n - 1) + lo * bp(n - 1), acc_new == lvi(r2, n - 1) + wt * bp(n - 1),
+                             wt == B * hi + lo, bp(n) == B * bp(n - 1), carry_outer as int == hi;
+            }/*-*/
+            vassert (carry_outer <= 2 );
+        } else {
+            /*+*/proof {
+                // 4*mv < bp(n), so acc_new < 3*mv < bp(n)*3/4 and the top word fits one limb
+                lemma_lvi_bound(modulus@, n - 1);
+                assert(mv == lvi(modulus@, n - 1) + modulus@[n - 1] as int * bp(n - 1));
+                assert(4 * mv < bp(n)) by(nonlinear_arith)
+                    requires mv == lvi(modulus@, n - 1) + modulus@[n - 1] as int * bp(n - 1), lvi(modulus@, n - 1) < bp(n - 1),
+                             modulus@[n - 1] as int <= 0x3fff_ffff_ffff_fffe, bp(n) == B * bp(n - 1), bp(n - 1) >= 1, B == 0x1_0000_0000_0000_0000;
+                assert(wt < B) by(nonlinear_arith)
+                    requires acc_new == lvi(r2, n - 1) + wt * bp(n - 1), lvi(r2, n - 1) >= 0, acc_new < 3 * mv, 4 * mv < bp(n), bp(n) == B * bp(n - 1), bp(n - 1) >= 1;
+                assert(co == 0);
+                assert(!carry_hi);
+                lemma_small_mod((carry_lo as int + carry as int) as nat, B as nat);
+            }/*-*/
+            vassert (!carry_hi );
+            vassert ( (carry_outer ) == ( 0 ) );
+            let (value, carry) = carry_lo.overflowing_add(carry);
+            vassert (!carry );
+            result[N - 1] = value;
+            /*+*/proof {
+                lemma_lvi_ext(r2, result@, n - 1);
+                assert(lvi(result@, n) == lvi(result@, n - 1) + value as int * bp(n - 1));
+                assert(value as int == wt);
+                assert(0 * bp(n) == 0) by(nonlinear_arith);
+                assert(lvi(result@, n) + carry_outer as int * bp(n) == acc_new);
+            }/*-*/
+        }
+        /*+*/proof { mu = mu_new; }/*-*/
+    }
+    /*+*/proof {
+        // final bound: bp(n)*Acc == av*av + mv*mu with mu < bp(n), av < mv < bp(n)  ==>  Acc < 2*mv
+        let acc = lvi(result@, n) + carry_outer as int * bp(n);
+        assert(sq_part(av, av) == av * av) by(nonlinear_arith) requires sq_part(av, av) == av * (2 * av - av);
+        lemma_bp_pos(n);
+        assert(av * av <= (mv - 1) * (mv - 1)) by(nonlinear_arith) requires 0 <= av <= mv - 1;
+        assert(mv * mu <= mv * (bp(n) - 1)) by(nonlinear_arith) requires 0 <= mu <= bp(n) - 1, mv >= 0;
+        assert(acc < 2 * mv) by(nonlinear_arith)
+            requires bp(n) * acc == av * av + mv * mu, av * av <= (mv - 1) * (mv - 1), mv * mu <= mv * (bp(n) - 1), 1 <= mv <= bp(n) - 1;
+        lemma_lvi_bound(result@, n);
+        assert(carry_outer <= 1) by(nonlinear_arith)
+            requires acc == lvi(result@, n) + carry_outer as int * bp(n), lvi(result@, n) >= 0, acc < 2 * mv, mv < bp(n), bp(n) >= 1;
+        let cb = carry_outer > 0;
+        assert(lvi(result@, n) + (if cb { bp(n) } else { 0 }) == acc) by(nonlinear_arith)
+            requires acc == lvi(result@, n) + carry_outer as int * bp(n), carry_outer <= 1, cb == (carry_outer > 0);
+        assert forall|r: Seq<u64>| #[trigger] reduce_post(r, result@, modulus@, cb, n) implies redc_post(r, av * av, mv, n) by {
+            if lvi(r, n) == acc {
+                assert(redc_rel(bp(n) * lvi(r, n), av * av, mv, mu));
+            } else {
+                assert(bp(n) * (acc - mv) == av * av + mv * (mu - bp(n))) by(nonlinear_arith)
+                    requires bp(n) * acc == av * av + mv * mu;
+                assert(redc_rel(bp(n) * lvi(r, n), av * av, mv, mu - bp(n)));
+            }
+        }
+    }/*-*/
+    vassert (carry_outer <= 1 );
+    reduce1_carry(result, modulus, carry_outer > 0)
+}
+//@ end
+
 } // verus!
 fn main() {}
